@@ -267,15 +267,22 @@ func subLists() mon.Sub {
 				// the real header path: ws.Upgrader feeds the textual header to Negotiate
 				req := "GET / HTTP/1.1\r\nHost: x\r\nUpgrade: websocket\r\nConnection: Upgrade\r\nSec-WebSocket-Version: 13\r\nSec-WebSocket-Key: dGhlIHNhbXBsZSBub25jZQ==\r\n"
 				if c.Rng.Intn(2) == 0 {
-					req += "Sec-WebSocket-Extensions: " + strings.Join(texts, ", ") + "\r\n\r\n"
+					req += "Sec-WebSocket-Extensions: " + strings.Join(texts, ", ") + "\r\n"
 				} else {
 					for _, t := range texts {
 						req += "Sec-WebSocket-Extensions: " + t + "\r\n"
 					}
-					req += "\r\n"
 				}
-				u := ws.Upgrader{Negotiate: e.Negotiate}
-				hs, err := u.Upgrade(xport.RW{Reader: strings.NewReader(req), Writer: xport.NewRec()})
+				// more header lines BEHIND the offers, a small read buffer and a transport that delivers the request
+				// in pieces: the buffer the offers were read into is refilled before the handshake ends
+				for k := c.Rng.Intn(4); k > 0; k-- {
+					req += fmt.Sprintf("X-Trailer-%d: %s\r\n", k, strings.Repeat("permessage-deflate; bogus, ", c.Rng.Intn(20)))
+				}
+				req += "\r\n"
+				plans := xport.Plans(c.Rng.Int63(), nil)
+				u := ws.Upgrader{Negotiate: e.Negotiate, ReadBufferSize: []int{0, 64, 128, 256, 512}[c.Rng.Intn(5)]}
+				det["read_buffer"], det["plan"] = u.ReadBufferSize, plans[c.I%len(plans)].String()
+				hs, err := u.Upgrade(xport.RW{Reader: xport.NewChunker([]byte(req), plans[c.I%len(plans)]), Writer: xport.NewRec()})
 				if err != nil {
 					c.Fail("lists/header-path-error", "upgrade with well-formed offers failed: "+err.Error(), det)
 					return
@@ -523,7 +530,7 @@ func main() {
 		Property: "C14",
 		Level:    "exploration",
 		Rule: "exhaustive: the full grid of 324 server configurations (2x2x9x9) x 360 single offers (2x2x9x10) = 116640 negotiations by fresh negotiators, each accepted answer parsed and checked against RFC 7692 §7.1 legality (ref.PMCEIllegal); all malformed parameter lists (unknown names, each parameter duplicated same/value-then-bare/bare-then-value/different, values {7,16,0,255,abc,'1 5',-8,8.0,10^20-1, valid+k*2^64/2^32/2^16/2^8, +8, 0xA, 1e1, '10.', 1_0, non-ASCII digits}, value on a flag, no value on server_max_window_bits) alone and embedded among valid parameters x 47 configurations must yield an error from Negotiate and Parse, and through the real ws.Upgrader header path (alone, followed / preceded by other extensions in the same or another header line) must fail the handshake without a 101; Parse/Option inverse for all 360 parameter sets through the wire text. " +
-			"sampled: lists of up to 3 offers (+ non-deflate extensions in between) negotiated by one negotiator directly and through the real ws.Upgrader header path (single header and repeated headers): at most one accepted, it is the first one a fresh negotiator accepts alone, its answer is legal, Accepted() reports it; negotiators after 1-4 negotiations (accept/decline/parse error/foreign extension) + Reset vs new ones. distinct = (config, offer class) etc.",
+			"sampled: lists of up to 3 offers (+ non-deflate extensions in between) negotiated by one negotiator directly and through the real ws.Upgrader header path (single header and repeated headers, more header lines behind the offers, read buffers 64..512 and chunked delivery so that the read buffer is refilled after the offers were seen): at most one accepted, it is the first one a fresh negotiator accepts alone, its answer is legal, Accepted() reports it; negotiators after 1-4 negotiations (accept/decline/parse error/foreign extension) + Reset vs new ones. distinct = (config, offer class) etc.",
 		Assumptions: []string{"ref.PMCEIllegal transcribes RFC 7692 §7.1.1-7.1.2 / the clauses of the statement", "declining an acceptable offer is not a violation", "leading zeros in window values are left open"},
 		Subs:        []mon.Sub{subGrid(), subLists(), subMalformed(), subInverse(), subReset()},
 	})
